@@ -447,6 +447,9 @@ fn build_matcher_tree(
     // multiple-character flags don't start with a double dash
     let mut i = arg_index;
     let mut invert_next_matcher = false;
+    // Set by '!', -a, -o and ',': the next token has to start an operand, so
+    // a binary operator there has nothing before it.
+    let mut operand_expected = false;
     while i < args.len() {
         let possible_submatcher = match args[i] {
             "-print" => Some(Printer::new(PrintDelimiter::Newline, None).into_box()),
@@ -780,6 +783,7 @@ fn build_matcher_tree(
                     )));
                 }
                 invert_next_matcher = !invert_next_matcher;
+                operand_expected = true;
                 None
             }
             "-and" | "-a" => {
@@ -789,7 +793,14 @@ fn build_matcher_tree(
                         args[i]
                     )));
                 }
+                if operand_expected {
+                    return Err(From::from(format!(
+                        "invalid expression; you have used a binary operator '{}' with nothing before it.",
+                        args[i]
+                    )));
+                }
                 top_level_matcher.check_new_and_condition()?;
+                operand_expected = true;
                 None
             }
             "-or" | "-o" => {
@@ -799,7 +810,14 @@ fn build_matcher_tree(
                         args[i]
                     )));
                 }
+                if operand_expected {
+                    return Err(From::from(format!(
+                        "invalid expression; you have used a binary operator '{}' with nothing before it.",
+                        args[i]
+                    )));
+                }
                 top_level_matcher.new_or_condition(args[i])?;
+                operand_expected = true;
                 None
             }
             "," => {
@@ -809,7 +827,14 @@ fn build_matcher_tree(
                         args[i]
                     )));
                 }
+                if operand_expected {
+                    return Err(From::from(format!(
+                        "invalid expression; you have used a binary operator '{}' with nothing before it.",
+                        args[i]
+                    )));
+                }
                 top_level_matcher.new_list_condition()?;
+                operand_expected = true;
                 None
             }
             "(" => {
@@ -947,6 +972,7 @@ fn build_matcher_tree(
             break;
         }
         if let Some(submatcher) = possible_submatcher {
+            operand_expected = false;
             if invert_next_matcher {
                 top_level_matcher.new_and_condition(NotMatcher::new(submatcher));
                 invert_next_matcher = false;
